@@ -16,12 +16,7 @@ use std::time::Duration;
 
 pub fn envs_from(args: &Args) -> Envs {
     Envs {
-        exec: ExecEnv {
-            gram: args.gram.clone(),
-            shim: args.shim.clone(),
-            cap: Duration::from_millis(args.cap_ms),
-            mem_cap: args.mem_cap,
-        },
+        exec: ExecEnv::new(args.gram.clone(), args.shim.clone(), Duration::from_millis(args.cap_ms), args.mem_cap),
         work: args.work.join(&args.run_id),
         step_budget: args.steps,
     }
@@ -114,6 +109,7 @@ pub fn outcome_json(spec: &Spec, out: &Outcome, with_obs: bool, with_orders: boo
         "family": spec.family,
         "form": spec.form.name(),
         "colour": spec.colour.name(),
+        "launcher": if spec.tier == Tier::Exec { spec.launcher.as_str() } else { "thread" },
         "file_hash": format!("{:016x}", fnv(&spec.source)),
         "file_len": spec.source.len(),
         "status": out.status,
